@@ -179,6 +179,25 @@ def check(ctx):
         except mir.AnchorLost as e:
             ctx.fail("C05.c", "anchor-lost:DataEntityCounter", "", str(e))
 
+    # system events: the payload entity that the command names is the one spawned with the caller's event, and the command
+    # is for the caller's target system (so end_system_event despawns exactly that payload)
+    senders = [b for b in prog.bodies if b.kind == "assoc_fn" and b.raw.get("name") == "send_system_event"]
+    ctx.floor("C05.c", len(senders), 2, "send_system_event implementations")
+    for s in senders:
+        ctx.touch(s)
+        sk = lib.fkey(s)
+        sp = [(b, t) for b, t, fr in s.iter_calls() if fr and lib.tail(mir.fn_name(fr), 2) in ("World::spawn", "Commands::spawn")]
+        newd = [(b, t) for b, t, fr in s.iter_calls() if fr and lib.tail(mir.fn_name(fr), 2) == "SystemEventData::new"]
+        aggs = [st["rv"]["agg"] for b, i, st in s.iter_stmts() if st["k"] == "assign" and "agg" in st["rv"] and st["rv"]["agg"].get("adt", "").endswith("::EventCommand")]
+        ok = len(sp) == 1 and len(newd) == 1 and len(aggs) == 1
+        if ok:
+            ag = aggs[0]
+            ok = lib.originates_from_arg(s, newd[0][1]["args"][0], 3) and lib.originates_from_call(s, sp[0][1]["args"][1], newd[0][0]) \
+                and lib.originates_from_arg(s, ag["ops"][ag["fields"].index("system")], 2) and entity_from_spawn(s, ag["ops"][ag["fields"].index("data_entity")], sp[0][0])
+        ctx.check(ok, "C05.c", "%s:event-command-names-its-own-payload" % sk, "%s:%d" % (s.file, s.line),
+                  "EventCommand{system: target, data_entity: id of spawn(SystemEventData::new(event))}",
+                  "send_system_event does not build its command from the target system and the entity it spawned for this event's payload")
+
     # ---- C05.d aborted and discarded runs release too ----
     H = ctx.anchor("C05.d", lambda: A.abort_helper(prog), "abort helper")
     if H is not None:
